@@ -800,6 +800,10 @@ pub(crate) struct ReceiverInner<L: endpoint::ReceiverLink> {
 
     // Wrap in a box to avoid clippy warning large_enum_variant on link acceptor's output
     pub(crate) incomplete_transfer: Option<Box<IncompleteTransfer>>,
+
+    // The last transfer of a delivery that will be accepted automatically, taken from
+    // `incoming` and waiting for room in `outgoing` (see `recv_inner`)
+    pub(crate) parked_transfer: Option<LinkFrame>,
 }
 
 impl<L: endpoint::ReceiverLink> Drop for ReceiverInner<L> {
@@ -975,19 +979,42 @@ where
         // When the session or the connection stops, the channel closes and this
         // returns `RecvError::LinkStateError(SessionStopped(reason))` with the
         // stop reason observed by the link.
-        let frame = match self.incoming.recv().await {
-            // cancel safe
+        // A credit top-up that could not be written together with the disposition it follows
+        let processed = self.processed.load(Ordering::Acquire);
+        if processed > 0 {
+            self.update_credit_if_auto(processed).await?; // cancel safe
+        }
+
+        let mut frame = match self.parked_transfer.take() {
             Some(frame) => frame,
-            None => {
-                return Err(match self.link().session_stop_reason().get() {
-                    Some(reason) => {
-                        RecvError::LinkStateError(LinkStateError::SessionStopped(reason.clone()))
-                    }
-                    // defensive: no stop reason recorded; failure is link-local
-                    None => RecvError::LinkStateError(LinkStateError::IllegalState),
-                });
-            }
+            None => match self.incoming.recv().await {
+                // cancel safe
+                Some(frame) => frame,
+                None => return Err(self.session_stopped()),
+            },
         };
+
+        // With auto-accept, the last transfer of a delivery makes this write to the session: a
+        // disposition, and a flow when the credit is topped up. Room for them is found before
+        // the delivery is put together. Until then the transfer is parked where the next call
+        // finds it, so that dropping this future while the session's queue is full does not
+        // lose the delivery; once there is room nothing is awaited any more.
+        let outgoing = self.outgoing.clone();
+        let mut room = None;
+        if self.auto_accept
+            && matches!(&frame, LinkFrame::Transfer { performative, .. } if !performative.more && !performative.aborted)
+        {
+            self.parked_transfer = Some(frame);
+            let permits = outgoing
+                .reserve_many(outgoing.max_capacity().min(2))
+                .await // cancel safe
+                .map_err(|_| self.session_stopped())?;
+            frame = match self.parked_transfer.take() {
+                Some(frame) => frame,
+                None => return Err(LinkStateError::IllegalState.into()),
+            };
+            room = Some(permits);
+        }
 
         match frame {
             LinkFrame::Detach(detach) => {
@@ -1005,7 +1032,7 @@ where
                 input_handle: _,
                 performative,
                 payload,
-            } => self.on_incoming_transfer(performative, payload).await, // cancel safe
+            } => self.on_incoming_transfer(performative, payload, room).await, // cancel safe
             LinkFrame::Attach(_) => Err(LinkStateError::IllegalState.into()),
             LinkFrame::Flow(_) | LinkFrame::Disposition(_) => {
                 // Flow and Disposition are handled by LinkRelay which runs
@@ -1023,6 +1050,57 @@ where
                 Err(RecvError::TransactionalAcquisitionIsNotImeplemented)
             }
         }
+    }
+
+    /// The session (or its connection) stopped and the engine dropped the relay
+    fn session_stopped(&self) -> RecvError {
+        match self.link().session_stop_reason().get() {
+            Some(reason) => {
+                RecvError::LinkStateError(LinkStateError::SessionStopped(reason.clone()))
+            }
+            // defensive: no stop reason recorded; failure is link-local
+            None => RecvError::LinkStateError(LinkStateError::IllegalState),
+        }
+    }
+
+    /// Accepts a delivery on behalf of the application (auto-accept).
+    ///
+    /// With `room` reserved in `outgoing` nothing is awaited: the disposition takes the first
+    /// place and the flow that tops the credit up the next one, if there is one. A top-up
+    /// that finds no place is written by the next call of `recv`.
+    async fn accept_automatically(
+        &self,
+        delivery_info: DeliveryInfo,
+        room: Option<mpsc::PermitIterator<'_, LinkFrame>>,
+    ) -> Result<(), DispositionError> {
+        let mut room = match room {
+            Some(room) => room,
+            None => return self.dispose(delivery_info, None, Accepted {}.into()).await,
+        };
+
+        let disposition = self
+            .link
+            .disposition(delivery_info, None, Accepted {}.into(), false);
+        if let Some(frame) = disposition {
+            match room.next() {
+                Some(permit) => permit.send(frame),
+                None => return Err(DispositionError::IllegalState),
+            }
+        }
+
+        let processed = self.processed.fetch_add(1, Ordering::AcqRel) + 1;
+        if let CreditMode::Auto(max_credit) = self.credit_mode {
+            if processed >= max_credit / 2 {
+                if let Some(permit) = room.next() {
+                    let flow = self
+                        .link
+                        .flow(Some(max_credit), Some(false), false, false)?;
+                    permit.send(flow);
+                    self.processed.store(0, Ordering::Release);
+                }
+            }
+        }
+        Ok(())
     }
 
     fn on_transfer_state(
@@ -1092,6 +1170,7 @@ where
         &mut self,
         transfer: Transfer,
         payload: Payload,
+        room: Option<mpsc::PermitIterator<'_, LinkFrame>>,
     ) -> Result<Option<Delivery<T>>, RecvError>
     where
         for<'de> T: FromBody<'de> + Send,
@@ -1117,19 +1196,19 @@ where
 
                     // Auto accept the message and leave settled to be determined based on rcv_settle_mode
                     if self.auto_accept {
-                        self.dispose(&delivery, None, Accepted {}.into()).await?;
+                        self.accept_automatically((&delivery).into(), room).await?;
                         // cancel safe
                     }
 
                     Ok(Some(delivery))
                 } else {
                     // The new Transfer belongs to the buffered incomplete transfer
-                    self.on_complete_transfer(transfer, payload).await // cancel safe
+                    self.on_complete_transfer(transfer, payload, room).await // cancel safe
                 }
             }
             _ => {
                 // The new Transfer belongs to the buffered incomplete transfer that there isn't an incomplete_transfer
-                self.on_complete_transfer(transfer, payload).await // cancel safe
+                self.on_complete_transfer(transfer, payload, room).await // cancel safe
             }
         }
     }
@@ -1141,6 +1220,7 @@ where
         &mut self,
         transfer: Transfer,
         payload: Payload,
+        room: Option<mpsc::PermitIterator<'_, LinkFrame>>,
     ) -> Result<Option<Delivery<T>>, RecvError>
     where
         for<'de> T: FromBody<'de> + Send,
@@ -1171,7 +1251,7 @@ where
 
         // Auto accept the message and leave settled to be determined based on rcv_settle_mode
         if self.auto_accept {
-            self.dispose(&delivery, None, Accepted {}.into()).await?; // cancel safe
+            self.accept_automatically((&delivery).into(), room).await?; // cancel safe
         }
 
         Ok(Some(delivery))
@@ -1185,6 +1265,7 @@ where
         &mut self,
         transfer: Transfer,
         payload: Payload,
+        room: Option<mpsc::PermitIterator<'_, LinkFrame>>,
     ) -> Result<Option<Delivery<T>>, RecvError>
     where
         for<'de> T: FromBody<'de> + Send,
@@ -1213,10 +1294,10 @@ where
             // Partial delivery doesn't yield a complete message
             Ok(None)
         } else if transfer.resume {
-            self.on_resuming_transfer(transfer, payload).await // cancel safe
+            self.on_resuming_transfer(transfer, payload, room).await // cancel safe
         } else {
             // Final transfer of the delivery
-            self.on_complete_transfer(transfer, payload).await // cancel safe
+            self.on_complete_transfer(transfer, payload, room).await // cancel safe
         }
     }
 
@@ -1279,10 +1360,13 @@ where
         if let CreditMode::Auto(max_credit) = self.credit_mode {
             if processed >= max_credit / 2 {
                 // Reset link credit
-                self.processed.store(0, Ordering::Release);
                 self.link
                     .send_flow(&self.outgoing, Some(max_credit), Some(false), false, false)
                     .await?; // cancel safe
+
+                // Only once the flow is queued: a call that is dropped while it waits for
+                // room leaves the top-up to the next one
+                self.processed.store(0, Ordering::Release);
             }
         }
         Ok(())
